@@ -580,12 +580,24 @@ func (root *Root) validateTypeName(typeName string, t Type) (errs []error) {
 
 func (root *Root) validateDirUses(t Type) (errs []error) {
 	for _, du := range t.Directives() {
-		errs = append(errs, root.validateDirUse(t.Name(), Locate(t), du)...)
+		errs = append(errs, root.validateSchemaDirUse(t.Name(), Locate(t), du)...)
 	}
 	return
 }
 
+// validateDirUse checks a directive use of a request. The coerced argument
+// values are stored at once, the request is not shared.
 func (root *Root) validateDirUse(where string, loc Location, du *DirectiveUse) (errs []error) {
+	return root.validateDirUseIn(where, loc, du, nil)
+}
+
+// validateSchemaDirUse checks a directive use of the schema. The coerced
+// argument values are stored only if the load is accepted, see validate().
+func (root *Root) validateSchemaDirUse(where string, loc Location, du *DirectiveUse) (errs []error) {
+	return root.validateDirUseIn(where, loc, du, &root.coerced)
+}
+
+func (root *Root) validateDirUseIn(where string, loc Location, du *DirectiveUse, pending *[]func()) (errs []error) {
 	d, _ := du.Directive.(*Directive)
 	if d == nil {
 		errs = append(errs, fmt.Errorf("%w, invalid directive at %s a %s at %d:%d",
@@ -629,8 +641,12 @@ func (root *Root) validateDirUse(where string, loc Location, du *DirectiveUse) (
 				} else {
 					// Might as well replace the coerced value since it is really
 					// what is needed.
-					av := av
-					root.coerced = append(root.coerced, func() { av.Value = v })
+					if pending == nil {
+						av.Value = v
+					} else {
+						av := av
+						*pending = append(*pending, func() { av.Value = v })
+					}
 				}
 			}
 		}
